@@ -509,7 +509,7 @@ def e2e_configs(nss, rng, thorough):
             cfg.simulation.spectrum = nss.config.Simulation.MonoSpectrum(log_nu_energy=float(rng.choice([8.0, 9.5, 10.5])))
         else:
             cfg.simulation.spectrum = nss.config.Simulation.PowerSpectrum(
-                index=float(rng.choice([2.0, 2.5])), lower_bound=float(rng.choice([7.0, 8.0])), upper_bound=float(rng.choice([10.0, 11.0])))
+                index=(1.0 if i in (1, 7) else float(rng.choice([2.0, 2.5, 1.0, 0.0, 3.0]))), lower_bound=float(rng.choice([7.0, 8.0])), upper_bound=float(rng.choice([10.0, 11.0])))
         cfg.detector.initial_position.altitude = float(rng.choice([525.0, 33.0, 1000.0]))
         # thresholds low enough that events pass in both channels
         cfg.detector.optical.photo_electron_threshold = float(rng.choice([10.0, 1.0, 50.0]))
@@ -582,7 +582,8 @@ def part_e2e(ctx, nss):
                 # independent numpy oracle from the same columns
                 D, R = 6378.1 + alt, 6378.1
                 w = np.sin(col("beta_rad")) / ((D * D - R * R - L * L) / (2 * R * L)) / np.cos(col("theta_rad"))
-                o_int, o_geo, o_n, _ = oracle_diffuse(w, np.cos(col("theta_rad")), coseff, trig, thr, p, sn, ss, mcn, N)
+                # the documented estimator has no spectral factor: the two factors compute() passes in multiply to 1 (C12)
+                o_int, o_geo, o_n, _ = oracle_diffuse(w, np.cos(col("theta_rad")), coseff, trig, thr, p, 1.0, 1.0, mcn, N)
                 colcheck = None
             else:
                 cut_on = bool(cfg.detector.sun_moon.sun_moon_cuts)
@@ -593,7 +594,7 @@ def part_e2e(ctx, nss):
                 ldec = col("lenDec")
                 cols = np.column_stack([L, ldec, coseff, trig, p, dark.astype(np.float64)])
                 mi, mg, mn, mf = parse_out(run_driver([drv_target(thr, sn, ss, N, cut_on, method, cols)])[0])
-                o_int, o_geo, o_n, contrib = oracle_target(L, ldec, coseff, trig, thr, p, sn, ss, N, dark, cut_on, method)
+                o_int, o_geo, o_n, contrib = oracle_target(L, ldec, coseff, trig, thr, p, 1.0, 1.0, N, dark, cut_on, method)
                 colname = "tmcintopt" if method == "Optical" else "tmcintrad"
                 colcheck = (colname, mf, contrib)
             # model (from columns) vs reported header: this is the correspondence of the wiring
